@@ -419,13 +419,13 @@ Proof.
   ib H s3 H3. assert (R3 := consume_eq_rest _ _ _ H3 R2).
   ib H q4 H4. destruct q4 as [quote s4]. assert (R4 := consume_quote_rest _ _ _ _ H4 R3).
   ib H s5 H5. destruct (advance_until2_no _ _ _ _ _ R4 H5) as (R5 & Hno).
-  ib H value Hv. unfold slice_back in Hv. apply mk_slice_ok in Hv.
+  ib H vsl Hv. unfold slice_back in Hv. apply mk_slice_ok in Hv.
   ib H u Hu. ib H s6 H6. assert (R6 := consume_byte_rest _ _ _ _ H6 R5).
   ib H c Hc. apply rec_ev_ok in Hc. subst c.
   destruct (IH _ _ _ _ _ _ R6 H) as (R' & added & -> & Hf). split; [exact R'|].
   eexists. split; [rewrite <- app_assoc; reflexivity|].
   cbn [app]. constructor; [|exact Hf].
-  cbn [attr_ok]. subst value. unfold slice_bytes. cbn [sl_start sl_end]. exact Hno.
+  cbn [attr_ok]. subst vsl. unfold slice_bytes. cbn [sl_start sl_end]. exact Hno.
 Qed.
 
 Theorem ok_no_lt_in_attr : forall text s acc open s' acc',
@@ -446,3 +446,439 @@ Proof.
   rewrite Forall_forall in Hf. apply (Hf _ Hin).
 Qed.
 Print Assumptions ok_no_lt_in_attr.
+
+(* ------------------------------------------------------------------------------------------ *)
+(* Document level: the shape of the token sequence ([1] document, [22] prolog, [27] Misc)       *)
+
+Definition is_misc_tok (tok : token) : Prop :=
+  match tok with TPI _ _ _ | TComment _ _ => True | _ => False end.
+Definition is_prolog_tok (tok : token) : Prop :=
+  match tok with TPI _ _ _ | TComment _ _ | TEntityDecl _ _ => True | _ => False end.
+Definition is_attr_tok (tok : token) : Prop :=
+  match tok with TAttribute _ _ _ _ _ _ => True | _ => False end.
+Definition neutral_tok (tok : token) : Prop :=
+  match tok with TElementEnd _ _ => False | _ => True end.
+
+Lemma misc_prolog tok : is_misc_tok tok -> is_prolog_tok tok.
+Proof. destruct tok; cbn; auto. Qed.
+Lemma misc_neutral tok : is_misc_tok tok -> neutral_tok tok.
+Proof. destruct tok; cbn; auto. Qed.
+Lemma attr_neutral tok : is_attr_tok tok -> neutral_tok tok.
+Proof. destruct tok; cbn; auto. Qed.
+
+(* the tokens that follow the end tag matching nesting depth [d] (the model's depth counter:
+   number of open elements below the root), [None] if that end tag is missing *)
+Fixpoint depth_walk (d : N) (l : list token) : option (list token) :=
+  match l with
+  | [] => None
+  | tok :: r =>
+    match tok with
+    | TElementEnd EOpen _ => depth_walk (d + 1) r
+    | TElementEnd (EClose _ _) _ => if d =? 0 then Some r else depth_walk (d - 1) r
+    | _ => depth_walk d r
+    end
+  end.
+
+Lemma depth_walk_neutral1 d tok l : neutral_tok tok -> depth_walk d (tok :: l) = depth_walk d l.
+Proof. destruct tok; cbn; try reflexivity. intros []. Qed.
+
+Lemma depth_walk_neutral d x l : Forall neutral_tok x -> depth_walk d (x ++ l) = depth_walk d l.
+Proof.
+  induction 1 as [|tok x Ht Hx IH]; [reflexivity|].
+  cbn [app]. rewrite depth_walk_neutral1 by exact Ht. exact IH.
+Qed.
+
+Lemma parse_comment_tok text s acc s' acc' :
+  parse_comment text (list token) rec_ev s acc = Ok (s', acc') ->
+  exists txt r, acc' = acc ++ [TComment txt r].
+Proof. intros H. destruct (ok_comment_body _ _ _ _ _ H) as (txt & r & -> & _). eauto. Qed.
+
+Lemma parse_pi_tok text s acc s' acc' :
+  parse_pi text (list token) rec_ev s acc = Ok (s', acc') ->
+  exists t ct r, acc' = acc ++ [TPI t ct r].
+Proof.
+  unfold parse_pi. intros H. destruct (starts_with s (b "<?xml ")); [noerr|].
+  ib H s1 H1. ib H q Hq. destruct q as [target s2]. cbv zeta in H.
+  ib H q3 H3. destruct q3 as [content s3]. ib H s4 H4. ib H c Hc.
+  apply rec_ev_ok in Hc. inversion H; subst. eauto.
+Qed.
+
+Lemma parse_misc_loop_toks text : forall fu s acc s' acc',
+  parse_misc_loop text (list token) rec_ev fu s acc = Ok (s', acc') ->
+  exists added, acc' = acc ++ added /\ Forall is_misc_tok added.
+Proof.
+  induction fu as [|fu IH]; intros s acc s' acc' H; cbn [parse_misc_loop] in H; [noerr|].
+  destruct (at_end s).
+  { inversion H; subst. exists []. rewrite app_nil_r. auto. }
+  cbv zeta in H.
+  destruct (starts_with (skip_spaces s) (b "<!--")).
+  { ib H q Hq. destruct q as [s1 c1]. destruct (parse_comment_tok _ _ _ _ _ Hq) as (txt & r & ->).
+    destruct (IH _ _ _ _ H) as (added & -> & Hf). eexists. rewrite <- app_assoc. split; [reflexivity|].
+    constructor; [exact I|exact Hf]. }
+  destruct (starts_with (skip_spaces s) (b "<?")).
+  { ib H q Hq. destruct q as [s1 c1]. destruct (parse_pi_tok _ _ _ _ _ Hq) as (t & ct & r & ->).
+    destruct (IH _ _ _ _ H) as (added & -> & Hf). eexists. rewrite <- app_assoc. split; [reflexivity|].
+    constructor; [exact I|exact Hf]. }
+  inversion H; subst. exists []. rewrite app_nil_r. auto.
+Qed.
+
+Lemma parse_misc_toks text s acc s' acc' :
+  parse_misc text (list token) rec_ev s acc = Ok (s', acc') ->
+  exists added, acc' = acc ++ added /\ Forall is_misc_tok added.
+Proof. apply parse_misc_loop_toks. Qed.
+
+Lemma parse_misc_at_end text C ev s (c : C) :
+  at_end s = true -> parse_misc text C ev s c = Ok (s, c).
+Proof. intros E. unfold parse_misc. cbn [parse_misc_loop]. rewrite E. reflexivity. Qed.
+
+Lemma parse_entity_decl_toks text s acc s' acc' :
+  parse_entity_decl text (list token) rec_ev s acc = Ok (s', acc') ->
+  exists added, acc' = acc ++ added /\ Forall is_prolog_tok added.
+Proof.
+  unfold parse_entity_decl. intros H. ib H s1 H1. ib H s2 H2.
+  destruct (try_consume_byte 37 s2) as [pe s3]. ib H s4 H4. cbv zeta in H.
+  ib H q5 H5. destruct q5 as [name s5]. ib H s6 H6. ib H q7 H7. destruct q7 as [def s7].
+  ib H c Hc. ib H s8 H8. inversion H; subst.
+  destruct def as [d|].
+  - destruct (negb pe).
+    + apply rec_ev_ok in Hc. subst. eexists; split; [reflexivity|]. constructor; [exact I|constructor].
+    + inversion Hc; subst. exists []. rewrite app_nil_r. auto.
+  - inversion Hc; subst. exists []. rewrite app_nil_r. auto.
+Qed.
+
+Lemma parse_doctype_loop_toks text : forall fu start s acc s' acc',
+  parse_doctype_loop text (list token) rec_ev fu start s acc = Ok (s', acc') ->
+  exists added, acc' = acc ++ added /\ Forall is_prolog_tok added.
+Proof.
+  induction fu as [|fu IH]; intros start s acc s' acc' H; cbn [parse_doctype_loop] in H; [noerr|].
+  destruct (at_end s).
+  { inversion H; subst. exists []. rewrite app_nil_r. auto. }
+  cbv zeta in H.
+  destruct (starts_with (skip_spaces s) (b "<!ENTITY")).
+  { ib H q Hq. destruct q as [s1 c1].
+    destruct (parse_entity_decl_toks _ _ _ _ _ Hq) as (a1 & -> & Hf1).
+    destruct (IH _ _ _ _ _ H) as (added & -> & Hf). eexists. rewrite <- app_assoc.
+    split; [reflexivity|]. apply Forall_app; auto. }
+  destruct (starts_with (skip_spaces s) (b "<!--")).
+  { ib H q Hq. destruct q as [s1 c1]. destruct (parse_comment_tok _ _ _ _ _ Hq) as (txt & r & ->).
+    destruct (IH _ _ _ _ _ H) as (added & -> & Hf). eexists. rewrite <- app_assoc.
+    split; [reflexivity|]. constructor; [exact I|exact Hf]. }
+  destruct (starts_with (skip_spaces s) (b "<?")).
+  { ib H q Hq. destruct q as [s1 c1]. destruct (parse_pi_tok _ _ _ _ _ Hq) as (t & ct & r & ->).
+    destruct (IH _ _ _ _ _ H) as (added & -> & Hf). eexists. rewrite <- app_assoc.
+    split; [reflexivity|]. constructor; [exact I|exact Hf]. }
+  destruct (starts_with (skip_spaces s) (b "]")).
+  { ib H s1 H1. destruct (curr_byte_opt (skip_spaces s1)) as [x|]; [|noerr].
+    destruct (x =? 62); [|noerr]. ib H s2 H2. inversion H; subst.
+    exists []. rewrite app_nil_r. auto. }
+  destruct (starts_with (skip_spaces s) (b "<!ELEMENT") || starts_with (skip_spaces s) (b "<!ATTLIST")
+            || starts_with (skip_spaces s) (b "<!NOTATION")); [|noerr].
+  destruct (consume_decl text (skip_spaces s)); try noerr. eapply IH; eauto.
+Qed.
+
+Lemma parse_doctype_toks text s acc s' acc' :
+  parse_doctype text (list token) rec_ev s acc = Ok (s', acc') ->
+  exists added, acc' = acc ++ added /\ Forall is_prolog_tok added.
+Proof.
+  unfold parse_doctype. intros H. ib H s1 H1. cbv zeta in H.
+  destruct (match curr_byte_opt (skip_spaces s1) with Some x => x =? 62 | None => false end).
+  - ib H s2 H2. inversion H; subst. exists []. rewrite app_nil_r. auto.
+  - ib H s2 H2. eapply parse_doctype_loop_toks; eauto.
+Qed.
+
+(* a start tag: attributes, then exactly one ElementEnd (Open or Empty) *)
+Lemma parse_element_loop_toks text : forall fu ts s acc open s' acc',
+  parse_element_loop text (list token) rec_ev fu ts s acc = Ok (open, s', acc') ->
+  exists attrs r, acc' = acc ++ attrs ++ [TElementEnd (if open then EOpen else EEmpty) r] /\
+                  Forall is_attr_tok attrs.
+Proof.
+  induction fu as [|fu IH]; intros ts s acc open s' acc' H; cbn [parse_element_loop] in H; [noerr|].
+  destruct (at_end s); [noerr|]. cbv zeta in H.
+  ib H x Hx. destruct (x =? 47).
+  { ib H s1 H1. ib H s2 H2. ib H c Hc. apply rec_ev_ok in Hc. inversion H; subst.
+    exists []. eexists. split; [reflexivity|constructor]. }
+  destruct (x =? 62).
+  { ib H s1 H1. ib H c Hc. apply rec_ev_ok in Hc. inversion H; subst.
+    exists []. eexists. split; [reflexivity|constructor]. }
+  ib H s1 H1. ib H q Hq. destruct q as [[prefix local] s2].
+  ib H s3 H3. ib H q4 H4. destruct q4 as [quote s4]. ib H s5 H5. ib H vsl Hv.
+  ib H u Hu. ib H s6 H6. ib H c Hc. apply rec_ev_ok in Hc. subst c.
+  destruct (IH _ _ _ _ _ _ H) as (attrs & r & -> & Hf).
+  eexists (_ :: attrs), r. split; [rewrite <- app_assoc; reflexivity|].
+  constructor; [exact I|exact Hf].
+Qed.
+
+Lemma parse_element_toks text s acc open s' acc' :
+  parse_element text (list token) rec_ev s acc = Ok (open, s', acc') ->
+  exists p l st attrs r,
+    acc' = acc ++ TElementStart p l st :: attrs ++ [TElementEnd (if open then EOpen else EEmpty) r] /\
+    Forall is_attr_tok attrs.
+Proof.
+  unfold parse_element. intros H. ib H s1 H1. ib H q Hq. destruct q as [[prefix local] s2].
+  ib H c Hc. apply rec_ev_ok in Hc. subst c.
+  destruct (parse_element_loop_toks _ _ _ _ _ _ _ _ H) as (attrs & r & -> & Hf).
+  exists prefix, local, (s_pos s), attrs, r. split; [rewrite <- app_assoc; reflexivity|exact Hf].
+Qed.
+
+Lemma parse_cdata_tok text s acc s' acc' :
+  parse_cdata text (list token) rec_ev s acc = Ok (s', acc') ->
+  exists txt r, acc' = acc ++ [TCdata txt r].
+Proof.
+  unfold parse_cdata. intros H. ib H s1 H1. ib H q Hq. destruct q as [txt s2].
+  ib H s3 H3. ib H c Hc. apply rec_ev_ok in Hc. inversion H; subst. eauto.
+Qed.
+
+Lemma parse_close_element_tok text s acc s' acc' :
+  parse_close_element text (list token) rec_ev s acc = Ok (s', acc') ->
+  exists p l r, acc' = acc ++ [TElementEnd (EClose p l) r].
+Proof.
+  unfold parse_close_element. intros H. ib H s1 H1. ib H q Hq. destruct q as [[p l] s2].
+  cbv zeta in H. ib H s3 H3. ib H c Hc. apply rec_ev_ok in Hc. inversion H; subst. eauto.
+Qed.
+
+Lemma parse_text_tok text s acc s' acc' :
+  parse_text text (list token) rec_ev s acc = Ok (s', acc') ->
+  exists txt r, acc' = acc ++ [TText txt r].
+Proof. intros H. destruct (ok_text_no_cdata_end _ _ _ _ _ H) as (txt & r & -> & _). eauto. Qed.
+
+(* the outcome of parse_content at depth d: either the end tag of depth d was the last token
+   delivered, or that end tag never came and the stream is exhausted *)
+Definition content_res (d : N) (s' : stream) (added : list token) : Prop :=
+  depth_walk d added = Some [] \/ (depth_walk d added = None /\ at_end s' = true).
+
+Lemma content_step d d1 s' acc acc1 acc' x :
+  acc1 = acc ++ x ->
+  (forall l, depth_walk d (x ++ l) = depth_walk d1 l) ->
+  (exists added, acc' = acc1 ++ added /\ content_res d1 s' added) ->
+  exists added, acc' = acc ++ added /\ content_res d s' added.
+Proof.
+  intros -> Hw (added & -> & Hr). exists (x ++ added). split; [apply eq_sym, app_assoc|].
+  unfold content_res in *. rewrite Hw. exact Hr.
+Qed.
+
+Lemma parse_content_loop_toks text : forall fu d s acc s' acc',
+  parse_content_loop text (list token) rec_ev fu d s acc = Ok (s', acc') ->
+  exists added, acc' = acc ++ added /\ content_res d s' added.
+Proof.
+  induction fu as [|fu IH]; intros d s acc s' acc' H; cbn [parse_content_loop] in H; [noerr|].
+  destruct (at_end s) eqn:Ea.
+  { inversion H; subst. exists []. rewrite app_nil_r. split; [reflexivity|]. right. auto. }
+  ib H x Hx. destruct (x =? 60).
+  - destruct (next_byte s) as [y| | |] eqn:Ey; try noerr.
+    destruct (y =? 33).
+    + destruct (starts_with s (b "<!--")).
+      { ib H q Hq. destruct q as [s1 c1]. destruct (parse_comment_tok _ _ _ _ _ Hq) as (txt & r & E).
+        eapply content_step; [exact E| |eapply IH; exact H]. intros l. reflexivity. }
+      destruct (starts_with s (b "<![CDATA[")); [|noerr].
+      ib H q Hq. destruct q as [s1 c1]. destruct (parse_cdata_tok _ _ _ _ _ Hq) as (txt & r & E).
+      eapply content_step; [exact E| |eapply IH; exact H]. intros l. reflexivity.
+    + destruct (y =? 63).
+      { ib H q Hq. destruct q as [s1 c1]. destruct (parse_pi_tok _ _ _ _ _ Hq) as (t & ct & r & E).
+        eapply content_step; [exact E| |eapply IH; exact H]. intros l. reflexivity. }
+      destruct (y =? 47).
+      { ib H q Hq. destruct q as [s1 c1].
+        destruct (parse_close_element_tok _ _ _ _ _ Hq) as (p & l & r & E).
+        destruct (d =? 0) eqn:Ed.
+        - inversion H; subst. eexists. split; [reflexivity|]. left. cbn [depth_walk]. rewrite Ed. reflexivity.
+        - eapply content_step; [exact E| |eapply IH; exact H]. intros l0. cbn [app depth_walk].
+          rewrite Ed. reflexivity. }
+      ib H q Hq. destruct q as [[open s1] c1].
+      destruct (parse_element_toks _ _ _ _ _ _ Hq) as (p & l & st & attrs & r & E & Hf).
+      eapply content_step; [exact E| |eapply IH; exact H]. intros l0.
+      cbn [app]. rewrite depth_walk_neutral1 by exact I. rewrite <- app_assoc.
+      rewrite depth_walk_neutral by (eapply Forall_impl; [apply attr_neutral|exact Hf]).
+      destruct open; reflexivity.
+  - ib H q Hq. destruct q as [s1 c1]. destruct (parse_text_tok _ _ _ _ _ Hq) as (txt & r & E).
+    eapply content_step; [exact E| |eapply IH; exact H]. intros l. reflexivity.
+Qed.
+
+(* [1] document ::= prolog element Misc*: what the tokenizer delivers for a whole document is
+   - a prolog made of PIs, comments and entity declarations (no entity declarations when DTDs
+     are not allowed),
+   - at most one root element: ElementStart, attributes, ElementEnd and, if open, its content;
+   - then only PIs and comments; and if the root element was left unclosed (the stream ended
+     first) nothing at all.
+   In particular no text, CDATA or second element can appear outside the root element. *)
+Definition root_shape (root post : list token) : Prop :=
+  root = [] \/
+  exists p l st attrs e r content,
+    root = TElementStart p l st :: attrs ++ TElementEnd e r :: content /\
+    Forall is_attr_tok attrs /\
+    match e with
+    | EEmpty => content = []
+    | EOpen => depth_walk 0 content = Some [] \/ post = []
+    | EClose _ _ => False
+    end.
+
+Theorem ok_document_shape : forall text dtd toks,
+  parse_document text (list token) rec_ev dtd [] = Ok toks ->
+  exists pre root post,
+    toks = pre ++ root ++ post /\
+    Forall is_prolog_tok pre /\ (dtd = false -> Forall is_misc_tok pre) /\
+    Forall is_misc_tok post /\
+    root_shape root post.
+Proof.
+  intros text dtd toks H. unfold parse_document in H. cbv zeta in H.
+  ib H s1 H1. ib H s2 H2. ib H q3 H3. destruct q3 as [s3 c3].
+  destruct (parse_misc_toks _ _ _ _ _ H3) as (m1 & -> & Hm1). cbn [app] in *.
+  ib H q4 H4. destruct q4 as [s4 c4].
+  assert (P : exists m2, c4 = m1 ++ m2 /\ Forall is_prolog_tok m2 /\ (dtd = false -> m2 = [])).
+  { destruct (starts_with (skip_spaces s3) (b "<!DOCTYPE")).
+    - destruct dtd; cbn [negb] in H4; [|noerr].
+      ib H4 q Hq. destruct q as [sa ca].
+      destruct (parse_doctype_toks _ _ _ _ _ Hq) as (a1 & -> & Hf1).
+      destruct (parse_misc_toks _ _ _ _ _ H4) as (a2 & -> & Hf2).
+      exists (a1 ++ a2). split; [apply eq_sym, app_assoc|]. split; [|discriminate].
+      apply Forall_app. split; [exact Hf1|]. eapply Forall_impl; [apply misc_prolog|exact Hf2].
+    - inversion H4; subst. exists []. rewrite app_nil_r. auto. }
+  destruct P as (m2 & -> & Hm2 & Hd). clear H4.
+  ib H q5 H5. destruct q5 as [s5 c5]. ib H q6 H6. destruct q6 as [s6 c6].
+  destruct (negb (at_end s6)); [noerr|]. inversion H; subst c6. clear H.
+  assert (Hpre : Forall is_prolog_tok (m1 ++ m2)).
+  { apply Forall_app. split; [eapply Forall_impl; [apply misc_prolog|exact Hm1]|exact Hm2]. }
+  assert (Hpre' : dtd = false -> Forall is_misc_tok (m1 ++ m2)).
+  { intros E. rewrite (Hd E), app_nil_r. exact Hm1. }
+  destruct (match curr_byte_opt (skip_spaces s4) with Some x => x =? 60 | None => false end).
+  2:{ inversion H5; subst. destruct (parse_misc_toks _ _ _ _ _ H6) as (m3 & -> & Hm3).
+      exists (m1 ++ m2), [], m3. cbn [app]. repeat split; auto. left; reflexivity. }
+  ib H5 q Hq. destruct q as [[open sa] ca].
+  destruct (parse_element_toks _ _ _ _ _ _ Hq) as (p & l & st & attrs & r & -> & Hf).
+  destruct open.
+  - unfold parse_content in H5.
+    destruct (parse_content_loop_toks _ _ _ _ _ _ _ H5) as (content & -> & [Hc|[Hc Ha]]).
+    + destruct (parse_misc_toks _ _ _ _ _ H6) as (m3 & -> & Hm3).
+      exists (m1 ++ m2), (TElementStart p l st :: attrs ++ TElementEnd EOpen r :: content), m3.
+      split. { rewrite <- !app_assoc. cbn [app]. rewrite <- !app_assoc. reflexivity. }
+      repeat split; auto. right. exists p, l, st, attrs, EOpen, r, content. auto.
+    + rewrite (parse_misc_at_end _ _ _ _ _ Ha) in H6. inversion H6; subst.
+      exists (m1 ++ m2), (TElementStart p l st :: attrs ++ TElementEnd EOpen r :: content), [].
+      split. { rewrite <- !app_assoc. cbn [app]. rewrite <- !app_assoc, app_nil_r. reflexivity. }
+      repeat split; auto. right. exists p, l, st, attrs, EOpen, r, content. auto.
+  - inversion H5; subst. destruct (parse_misc_toks _ _ _ _ _ H6) as (m3 & -> & Hm3).
+    exists (m1 ++ m2), (TElementStart p l st :: attrs ++ TElementEnd EEmpty r :: []), m3.
+    split. { rewrite <- !app_assoc. cbn [app]. rewrite <- !app_assoc. reflexivity. }
+    repeat split; auto. right. exists p, l, st, attrs, EEmpty, r, []. auto.
+Qed.
+Print Assumptions ok_document_shape.
+
+(* corollary: nothing but PIs, comments and entity declarations before the root element *)
+Theorem ok_no_text_before_root : forall text dtd toks,
+  parse_document text (list token) rec_ev dtd [] = Ok toks ->
+  exists pre post, toks = pre ++ post /\ Forall is_prolog_tok pre /\
+    (post = [] \/ (exists p l st rest, post = TElementStart p l st :: rest) \/ Forall is_misc_tok post).
+Proof.
+  intros text dtd toks H.
+  destruct (ok_document_shape _ _ _ H) as (pre & root & post & -> & Hp & _ & Hm & Hr).
+  exists pre, (root ++ post). split; [reflexivity|]. split; [exact Hp|].
+  destruct Hr as [->|(p & l & st & attrs & e & r & content & -> & _)].
+  - right; right. exact Hm.
+  - right; left. cbn [app]. eauto.
+Qed.
+Print Assumptions ok_no_text_before_root.
+
+(* ------------------------------------------------------------------------------------------ *)
+(* [2] Char: the stream only advances over XML Chars in skip_chars / consume_chars              *)
+
+(* the first k bytes of l decode (decode1, repeatedly) to code points that are XML Chars *)
+Inductive chars_upto : bytes -> N -> Prop :=
+| cu_0 l : chars_upto l 0
+| cu_step l c n k : decode1 l = Some (c, n) -> char_is_char c = true ->
+    chars_upto (skipn (N.to_nat n) l) k -> chars_upto l (n + k).
+
+Definition all_chars (l : bytes) : Prop := chars_upto l (blen l).
+
+Lemma advance_ok n s s' : advance n s = Ok s' ->
+  s_pos s' = s_pos s + n /\ s_rest s' = skipn (N.to_nat n) (s_rest s) /\ s_end s' = s_end s.
+Proof.
+  unfold advance. destruct (s_end s <? s_pos s + n); [discriminate|].
+  intros H; inversion H; subst; cbn. auto.
+Qed.
+
+Lemma skip_chars_loop_chars text f : forall fu s s', skip_chars_loop text fu f s = Ok s' ->
+  s_pos s <= s_pos s' /\ chars_upto (s_rest s) (s_pos s' - s_pos s).
+Proof.
+  induction fu as [|fu IH]; intros s s' H; cbn [skip_chars_loop] in H; [noerr|].
+  assert (Z : forall t : stream, s_pos t <= s_pos t /\ chars_upto (s_rest t) (s_pos t - s_pos t)).
+  { intros t. split; [lia|]. replace (s_pos t - s_pos t) with 0 by lia. constructor. }
+  ib H oc Ho. unfold next_char in Ho.
+  destruct (at_end s). { inversion Ho; subst. inversion H; subst. apply Z. }
+  destruct (decode1 (s_rest s)) as [[c n]|] eqn:Ed; [|noerr].
+  destruct (s_end s <? s_pos s + n); [noerr|]. inversion Ho; subst oc. clear Ho.
+  destruct (char_is_char c) eqn:Ec; cbn [negb] in H; [|noerr].
+  destruct (f s c); [|inversion H; subst; apply Z].
+  ib H s1 H1. destruct (advance_ok _ _ _ H1) as (Hp & Hr & _).
+  destruct (IH _ _ H) as (Hle & Hc). split; [lia|].
+  replace (s_pos s' - s_pos s) with (n + (s_pos s' - s_pos s1)) by lia.
+  econstructor; [exact Ed|exact Ec|]. rewrite <- Hr. exact Hc.
+Qed.
+
+(* every char skip_chars passes over is an XML Char (no hypothesis on the stream needed:
+   the statement is about the bytes the stream holds) *)
+Theorem skip_chars_only_chars : forall text f s s', skip_chars text f s = Ok s' ->
+  s_pos s <= s_pos s' /\ chars_upto (s_rest s) (s_pos s' - s_pos s).
+Proof. intros text f s s' H. eapply skip_chars_loop_chars; exact H. Qed.
+Print Assumptions skip_chars_only_chars.
+
+Lemma decode1_firstn l c n m : decode1 l = Some (c, n) -> (N.to_nat n <= m)%nat ->
+  decode1 (firstn m l) = Some (c, n) /\ (N.to_nat n <= length l)%nat.
+Proof.
+  intros H Hm. destruct l as [|b0 r]; [discriminate|]. unfold decode1 in H.
+  destruct (b0 <? 128) eqn:E1.
+  { inversion H; subst. destruct m as [|m]; [lia|]. cbn [firstn]. unfold decode1. rewrite E1.
+    split; [reflexivity|cbn [length]; lia]. }
+  destruct (b0 <? 192) eqn:E2; [discriminate|].
+  destruct (b0 <? 224) eqn:E3.
+  { destruct r as [|b1 r]; [discriminate|]. destruct (is_cont b1) eqn:C1; [|discriminate].
+    inversion H; subst. destruct m as [|[|m]]; try lia. cbn [firstn]. unfold decode1.
+    rewrite E1, E2, E3, C1. split; [reflexivity|cbn [length]; lia]. }
+  destruct (b0 <? 240) eqn:E4.
+  { destruct r as [|b1 [|b2 r]]; try discriminate.
+    destruct (is_cont b1 && is_cont b2) eqn:C1; [|discriminate].
+    inversion H; subst. destruct m as [|[|[|m]]]; try lia. cbn [firstn]. unfold decode1.
+    rewrite E1, E2, E3, E4, C1. split; [reflexivity|cbn [length]; lia]. }
+  destruct (b0 <? 248) eqn:E5; [|discriminate].
+  destruct r as [|b1 [|b2 [|b3 r]]]; try discriminate.
+  destruct (is_cont b1 && is_cont b2 && is_cont b3) eqn:C1; [|discriminate].
+  inversion H; subst. destruct m as [|[|[|[|m]]]]; try lia. cbn [firstn]. unfold decode1.
+  rewrite E1, E2, E3, E4, E5, C1. split; [reflexivity|cbn [length]; lia].
+Qed.
+
+Lemma chars_upto_firstn l k : chars_upto l k ->
+  chars_upto (firstn (N.to_nat k) l) k /\ (N.to_nat k <= length l)%nat.
+Proof.
+  induction 1 as [l|l c n k Hd Hc Hu [IH1 IH2]].
+  - split; [constructor|cbn; lia].
+  - destruct (decode1_firstn l c n (N.to_nat (n + k)) Hd ltac:(lia)) as (Hd' & Hn).
+    rewrite skipn_length in IH2. split; [|lia].
+    econstructor; [exact Hd'|exact Hc|]. rewrite skipn_firstn_comm.
+    replace (N.to_nat (n + k) - N.to_nat n)%nat with (N.to_nat k) by lia. exact IH1.
+Qed.
+
+(* the same, read on the input text: the bytes of the text between the two positions are a
+   sequence of XML Chars *)
+Theorem skip_chars_only_chars_text : forall text f s s',
+  s_rest s = skipn (N.to_nat (s_pos s)) text ->
+  skip_chars text f s = Ok s' ->
+  all_chars (sub text (s_pos s) (s_pos s')).
+Proof.
+  intros text f s s' R H. destruct (skip_chars_only_chars _ _ _ _ H) as (Hle & Hc).
+  apply chars_upto_firstn in Hc. destruct Hc as (Hc & Hlen).
+  unfold all_chars, sub. rewrite <- R.
+  replace (blen (firstn (N.to_nat (s_pos s' - s_pos s)) (s_rest s))) with (s_pos s' - s_pos s);
+    [exact Hc|].
+  unfold blen. rewrite firstn_length_le by exact Hlen. lia.
+Qed.
+Print Assumptions skip_chars_only_chars_text.
+
+(* hence the body of every comment, PI, CDATA section and text node delivered by the tokenizer
+   consists of XML Chars *)
+Theorem consume_chars_only_chars : forall text f s sl s',
+  s_rest s = skipn (N.to_nat (s_pos s)) text ->
+  consume_chars text f s = Ok (sl, s') ->
+  all_chars (slice_bytes text sl).
+Proof.
+  intros text f s sl s' R H. unfold consume_chars in H. ib H s1 H1. ib H sl1 H2.
+  inversion H; subst. unfold slice_back in H2. apply mk_slice_ok in H2. subst sl.
+  unfold slice_bytes. cbn [sl_start sl_end]. eapply skip_chars_only_chars_text; eauto.
+Qed.
+Print Assumptions consume_chars_only_chars.
